@@ -31,7 +31,18 @@ fi
 cd /verif
 out=$(VERIF_REPO="$wt" VERIF_EVIDENCE_DIR="/tmp/mt/ev-$id" timeout 3600 ./check "$prop" --tier "$tier" 2>&1); rc=$?
 nviol=$(printf '%s\n' "$out" | grep -c '^VIOLATION')
-first=$(printf '%s\n' "$out" | grep -A2 '^VIOLATION' | sed -n 2,3p | tr '\n' ' ' | cut -c1-400 | sed 's/"/\\"/g')
-summary=$(printf '%s\n' "$out" | tail -1 | cut -c1-300 | sed 's/"/\\"/g')
-echo "{\"id\": \"$id\", \"base\": \"$base\", \"property\": \"$prop\", \"tier\": \"$tier\", \"tests\": \"$tests\", \"demo_without\": \"$demo_without\", \"demo_with\": \"$demo_with\", \"check_exit\": $rc, \"violation_lines\": $nviol, \"first\": \"$first\", \"summary\": \"$summary\"}"
-rm -f /tmp/mt/demo-$id.out
+printf '%s\n' "$out" > "/tmp/mt/out-$id.txt"
+ID="$id" BASE="$base" PROP="$prop" TIER="$tier" TESTS="$tests" DW="$demo_without" DWI="$demo_with" RC="$rc" NV="$nviol" /venv/bin/python - <<'PY'
+import json, os
+out = open(f"/tmp/mt/out-{os.environ['ID']}.txt").read().splitlines()
+first = ""
+for i, l in enumerate(out):
+    if l.startswith("VIOLATION"):
+        first = " ".join(x.strip() for x in out[i + 1:i + 3])[:500]
+        break
+known = [l[:160] for l in out if l.startswith("KNOWN-FINDING")]
+print(json.dumps({"id": os.environ["ID"], "base": os.environ["BASE"], "property": os.environ["PROP"], "tier": os.environ["TIER"], "tests": os.environ["TESTS"],
+                  "demo_without": os.environ["DW"], "demo_with": os.environ["DWI"], "check_exit": int(os.environ["RC"]), "violation_lines": int(os.environ["NV"]),
+                  "first": first, "summary": (out[-1] if out else "")[:300]}))
+PY
+rm -f /tmp/mt/demo-$id.out "/tmp/mt/out-$id.txt"
